@@ -1835,6 +1835,13 @@ impl Machine {
                                 }
                             }
                             None => {
+                                // when this instruction was re-entered by backtracking, the
+                                // choice point that led here is still on the stack: remove it,
+                                // or backtrack() returns to this instruction forever.
+                                if let FirstOrNext::Next = self.machine_st.dynamic_mode {
+                                    self.trust_me();
+                                }
+
                                 self.machine_st.fail = true;
                             }
                         }
@@ -1918,6 +1925,13 @@ impl Machine {
                                 }
                             }
                             None => {
+                                // when this instruction was re-entered by backtracking, the
+                                // choice point that led here is still on the stack: remove it,
+                                // or backtrack() returns to this instruction forever.
+                                if let FirstOrNext::Next = self.machine_st.dynamic_mode {
+                                    self.trust_me();
+                                }
+
                                 self.machine_st.fail = true;
                             }
                         }
@@ -3761,6 +3775,12 @@ impl Machine {
                                         }
                                     }
                                     None => {
+                                        // as for DynamicElse: drop the choice point this
+                                        // instruction was re-entered through before failing.
+                                        if let FirstOrNext::Next = self.machine_st.dynamic_mode {
+                                            self.trust_me();
+                                        }
+
                                         self.machine_st.fail = true;
                                     }
                                 }
